@@ -240,11 +240,12 @@ class Repo:
                 parsed[fn] = self._parse(fn)
         self.renamed_back: Dict[str, str] = {}
         if os.environ.get('VERIF_NO_NORMALIZE') != '1':
-            from .renames import canonical_imports, specialise_mixins, undo_renames
+            from .renames import canonical_imports, inline_decorators, specialise_mixins, undo_renames
             trees_ = {fn[:-3]: t[3] for fn, t in parsed.items()}
             self.canonical_imports = canonical_imports(trees_, PKG)
             self.renamed_back = undo_renames(trees_)
             self.specialised = specialise_mixins(trees_)
+            self.undecorated = inline_decorators(trees_)
         for fn in sorted(parsed):
             self._load(fn, parsed[fn])
         for m in self.modules.values():
